@@ -26,7 +26,8 @@ THEOREMS = ["Builder.sim", "Builder.documented_eq_bound_partial", "Builder.kind_
             "Builder.exception_table_complete", "Builder.exception_tables_agree", "Builder.docstring_eq",
             "Builder.value_eq", "Builder.infer_type_sound", "Builder.infer_elements_sound", "Builder.infer_none_iff",
             "Builder.documented_eq_bound_setter_counterexample", "Builder.documented_eq_bound_annotation_counterexample",
-            "Builder.documented_eq_bound_inherited_counterexample", "Builder.documented_eq_bound_tail_counterexample",
+            "Builder.documented_eq_bound_inherited_nonliteral_counterexample",
+            "Builder.documented_eq_bound_inherited_counterexample_old", "Builder.documented_eq_bound_tail_counterexample",
             "Builder.documented_eq_bound_rebinding_counterexample", "Builder.documented_eq_bound_overload_counterexample",
             "Builder.kind_eq_counterexample", "Builder.oldstyle_double_wrap_asserts", "Builder.isNameEqualsMain_iff",
             "Builder.recognised_not_taken", "Builder.near_misses_taken_and_entered",
@@ -56,9 +57,10 @@ ASSUMPTIONS = [
 PARTIAL = {
     "Builder.documented_eq_bound_partial": "hypothesis Subset.inSubset: each name bound once per scope (old-style wrapping of a plain method allowed once), "
         "no @x.setter/@x.deleter/@overload, no bare annotation, decorators bare classmethod/staticmethod/property in a class (at most one per def) or identity "
-        "decorators not named *property, else/finally parts bind nothing, no assigned class attribute shadowing an inherited method/class. "
+        "decorators not named *property, else/finally parts bind nothing, no class attribute assigned a NON-literal that shadows an inherited "
+        "method/class (a literal may, since 91105ce), a `__name__` guard is skipped iff not taken on import. "
         "(The exception-table clause of inSubset is vacuous for the generated tables: Builder.basesOk_generated.) Each excluded construct has a counterexample theorem; "
-        "setter, bare annotation and inherited shadowing are recorded open findings. Docstring (Builder.docstring_eq) and exception kind (Builder.exception_eq) "
+        "setter, bare annotation and non-literal inherited shadowing are recorded open findings. Docstring (Builder.docstring_eq) and exception kind (Builder.exception_eq) "
         "carry no exclusion of their own since fcaa577 / 769cae3; the former witnesses are kept as *_counterexample_old over labelled pre-fix definitions.",
     "Builder.kind_eq": "decorator lists accepted by Subset.decosOk (kind_eq_iff characterises agreement for all lists of evaluable decorators)",
 }
@@ -770,7 +772,8 @@ def label_strings(sc: Scope, inh: Set[str] = frozenset()) -> None:
                 cur[0] = None
                 own[s[1]] = "nonattr"
             elif k in ("asg", "ann"):
-                refused = own.get(s[1]) == "nonattr" or (sc.in_class and s[1] not in own and s[1] in inh)
+                # a literal bypasses the inherited-name guard since 91105ce; a bare annotation does not
+                refused = own.get(s[1]) == "nonattr" or (k == "ann" and sc.in_class and s[1] not in own and s[1] in inh)
                 if not refused:             # else the assignment is ignored and currentAttr stays where it was
                     cur[0] = None
                     own.setdefault(s[1], "attr")
@@ -1096,8 +1099,52 @@ def check_tables(ctx: Ctx) -> None:
         ctx.fail("kind:table-name-not-an-exception", {"names": extra}, "names of _STD_LIB_EXCEPTIONS that are not exception classes: %s" % extra)
 
 
+SHADOW_PROBE = """def make():
+    return [1]
+class A:
+    def f(self):
+        pass
+    class N:
+        pass
+class L(A):
+    f = 1
+    N = None
+class X(A):
+    f = make()
+    N = make()
+    g = make()
+"""
+
+
+def probe_shadowing(ctx: Ctx) -> None:
+    """a class attribute that shadows an inherited method / nested class: assigned a literal (documented since 91105ce)
+    and assigned the result of a call (outside the generator's `name = literal` subset, judged here directly)"""
+    from pydoctor import model
+    s = model.System()
+    b = s.systemBuilder(s)
+    b.addModuleString(SHADOW_PROBE, "m")
+    b.buildModules()
+    glob: Dict[str, Any] = {"__name__": "m"}
+    exec(SHADOW_PROBE, glob)
+    for cls, sig, what in (("L", "missing-member:shadows-inherited", "a literal"),
+                           ("X", "missing-member:shadows-inherited:non-literal", "the result of a call")):
+        bound = [k for k in vars(glob[cls]) if not (k.startswith("__") and k.endswith("__"))]
+        documented = list(s.allobjects["m." + cls].contents)
+        ctx.case("probe-shadowing:" + cls, True, None)
+        for n in bound:
+            if n not in documented:
+                ctx.fail(sig, {"files": {"m.py": SHADOW_PROBE}, "scope": "m." + cls, "name": n},
+                         "m.%s: class attribute %r assigned %s is bound by Python and not documented (a base class has a "
+                         "method/class of that name)" % (cls, n, what))
+        for n in documented:
+            if n not in bound:
+                ctx.fail("invented-member:other", {"files": {"m.py": SHADOW_PROBE}, "scope": "m." + cls, "name": n},
+                         "m.%s documents %r which Python does not bind" % (cls, n))
+
+
 def run(ctx: Ctx) -> None:
     check_tables(ctx)
+    probe_shadowing(ctx)
     kernel_decorators(ctx)
     kernel_infer(ctx)
     nproj = 330 if ctx.quick else 10000
